@@ -211,8 +211,13 @@ def run(ctx):
                       "input bytes (out-of-range scalars and invalid points rejected, nothing reduced)", f.loc)
     f = ctx.anchor(CORE + "keys::VerifiableSecretSharingCommitment::<C>::deserialize_whole")
     if f:
+        v = FnView.get(P, f)
+        sizes = [v.call_args(bb)[1] for (bb, t, ci) in f.calls() if ci and ci.get("name") == "chunks_exact" and len(v.call_args(bb)) == 2]
+        chunk = lambda t: any(t == s_ for s_ in sizes)
         refusal(ctx, f, "SEP", "G49:no-remainder",
-                [("remainder.is_empty", cmp_fact("empty", lambda t: is_call(t, name="remainder"), None, False))], ok_sinks(f))
+                [("remainder.is_empty", cmp_fact("empty", lambda t: is_call(t, name="remainder"), None, False)),
+                 ("len % chunk == 0", cmp_fact("eq", lambda t: t[0] == "bin" and t[1] == "Rem" and length(arg(1))(t[2]) and chunk(t[3]), const(0), False))],
+                ok_sinks(f))
     # ---- (3) header
     f = ctx.anchor(CORE + "serialization::version_deserialize")
     if f:
